@@ -507,6 +507,14 @@ class Gen:
                 if vs:
                     v = r.pick(vs)
                     out.append(('print', ('var', v['name']), 1 if v['t'] == 'bool' else 0))
+                    # an expression printed directly (the formatter picks its conversion from the type of the expression):
+                    # arithmetic, and a cast of the variable to the integer of the same width and the other signedness
+                    if v['t'] in INTS and r.chance(1, 2):
+                        if "casts" in self.features and v['t'] != "usize" and r.chance(1, 2):
+                            other = ("u" + v['t'][1:]) if v['t'][0] == "i" else ("i" + v['t'][1:])
+                            out.append(('print', ('cast', v['t'], other, ('var', v['name'])), 0))
+                        else:
+                            out.append(('print', self.expr(v['t'], scope, 2, fns), 0))
             elif c < 72 and depth > 0:
                 inner = self.stmts(scope, 1 + r.below(3), depth - 1, fns, can_goto_return)
                 if r.chance(1, 2):
